@@ -1,5 +1,5 @@
 (* C07 - lemmas about the model of rotateFile / writeLoop (repaired code). *)
-From HT Require Import Common.Bytes C07.Model.
+From HT Require Import Common.Bytes C07.Model C07.Check.
 From Coq Require Import ZifyBool ZifyN ZifyNat FinFun.
 Open Scope Z_scope.
 
@@ -45,6 +45,18 @@ Proof.
   intros [E|Hi]; [subst; rewrite N.eqb_refl in Ex; discriminate|exact (IH eq_refl Hi)].
 Qed.
 
+Lemma longer_spec p : forall k, longer p k = (k <? length p)%nat.
+Proof.
+  induction p as [|x r IH]; intros k; destruct k; cbn [longer length]; try reflexivity.
+  rewrite IH. reflexivity.
+Qed.
+
+Lemma exceeds_spec p k : exceeds p k = (k <? zlen p).
+Proof.
+  unfold exceeds. pose proof (zlen_nonneg p). destruct (k <? 0) eqn:E; [lia|].
+  rewrite longer_spec. unfold zlen. lia.
+Qed.
+
 (* one window scan: p[j] is always in range under the loop condition; a found newline
    splits p after at most j bytes *)
 Lemma window_scan_spec p j : j < zlen p ->
@@ -55,7 +67,7 @@ Lemma window_scan_spec p j : j < zlen p ->
   end.
 Proof.
   intros Hj. unfold window_scan. destruct (j <=? 0) eqn:E0; [exact I|].
-  assert (E1 : (zlen p <=? j) = false) by lia. rewrite E1.
+  assert (E1 : negb (exceeds p j) = false) by (rewrite exceeds_spec; lia). rewrite E1.
   destruct p as [|x0 p']; [unfold zlen in Hj; cbn in Hj; lia|]. cbn [firstn skipn].
   set (n := Z.to_nat j).
   destruct (split_last_nl (firstn n p')) as [[a b]|] eqn:Es; [|exact I].
@@ -144,6 +156,7 @@ Record write_post (clk : nat -> N) (i : nat) (st st' : rf) (p : bytes) (hs : lis
             Forall (fun e => fits (rf_max st) (h_content e)) hs /\ fits (rf_max st) (rf_cur st');
   wp_fine : aligned (rf_cur st) -> Forall ent_fine hs;
   wp_kind : Forall loop_kind hs;
+  wp_skip : Forall (fun e => h_skipped e = [NL] \/ (h_skipped e = [] /\ h_kind e = RFresh)) hs;
   wp_secs : map h_sec hs = map clk (seq i (length hs));
   wp_nodup : NoDup (map fst (rf_rot st)) -> NoDup (map fst (rf_rot st'))
 }.
@@ -196,10 +209,11 @@ Lemma post_cons clk i st st0 st' a sk kd p1 hs p :
   (fits (rf_max st) (rf_cur st) -> fits (rf_max st) (rf_cur st ++ a)) ->
   (aligned (rf_cur st) -> ent_fine (mkH (clk i) (free_k (clk i) (rf_rot st)) (rf_cur st ++ a) sk kd)) ->
   (kd = RSplit \/ kd = RFresh \/ kd = RLong) ->
+  (sk = [NL] \/ (sk = [] /\ kd = RFresh)) ->
   write_post clk (S i) (rotate (clk i) sk kd st0) st' p1 hs ->
   write_post clk i st st' p (mkH (clk i) (free_k (clk i) (rf_rot st)) (rf_cur st ++ a) sk kd :: hs).
 Proof.
-  intros Em Emv Eg Eh Er Ec Ep Hfit Hfine Hkd Hp. destruct Hp.
+  intros Em Emv Eg Eh Er Ec Ep Hfit Hfine Hkd Hsk Hp. destruct Hp.
   cbn [rotate rf_max rf_moved rf_gone rf_hist rf_rot rf_cur] in *.
   rewrite Em, ?Emv, ?Eg, ?Eh, ?Er, ?Ec in *.
   constructor.
@@ -210,11 +224,12 @@ Proof.
   - rewrite wp_hist0, <- app_assoc. reflexivity.
   - rewrite wp_rot0, <- app_assoc. reflexivity.
   - unfold hist_stream in *. cbn [map concat h_content h_skipped].
-    rewrite <- !app_assoc. rewrite wp_stream0. cbn [app]. rewrite Ep, <- !app_assoc. reflexivity.
+    rewrite <- !app_assoc. rewrite wp_stream0. cbn [app]. rewrite Ep. reflexivity.
   - intros Hf. destruct (wp_fits0 (fits_nil _)) as [F1 F2]. split; [|exact F2].
     constructor; [apply Hfit, Hf|exact F1].
   - intros Ha. constructor; [apply Hfine, Ha|apply wp_fine0, aligned_nil].
   - constructor; [exact Hkd|exact wp_kind0].
+  - constructor; [exact Hsk|exact wp_skip0].
   - cbn [map length seq h_sec]. rewrite wp_secs0. reflexivity.
   - intros Hn. apply wp_nodup0. rewrite map_app. cbn [map fst].
     apply NoDup_snoc; [exact Hn|apply free_k_fresh].
@@ -227,7 +242,7 @@ Proof.
   induction fuel as [|f IH]; intros i st p w Hinv Hf; [lia|].
   pose proof Hinv as (Hex & Hpos).
   cbn [write_loop].
-  destruct (rf_pos st + zlen p >? rf_max st) eqn:Hc.
+  destruct (exceeds p (rf_max st - rf_pos st)) eqn:Hc; rewrite exceeds_spec in Hc.
   2:{ eexists. exists []. split; [reflexivity|]. apply final_post; [exact Hinv|left; lia]. }
   pose proof (window_scan_spec p (rf_max st - rf_pos st) ltac:(lia)) as Hs.
   unfold measure in Hf.
@@ -242,10 +257,9 @@ Proof.
     { unfold measure, st1. cbn [rotate rf_pos]. cbn. lia. }
     exists st'. eexists. split.
     + rewrite Hr. f_equal. unfold zlen. lia.
-    + eapply (post_cons clk i st (put st a) st' a [NL] RSplit rest hs p); try reflexivity; auto.
-      * rewrite Hp. reflexivity.
-      * intros _. left. rewrite zlen_app. lia.
-      * intros _. left. reflexivity.
+    + apply (post_cons clk i st (put st a) st' a [NL] RSplit rest hs p);
+        [reflexivity|reflexivity|reflexivity|reflexivity|reflexivity|reflexivity|exact Hp
+        |intros _; left; rewrite zlen_app; lia|intros _; left; reflexivity|auto|auto|exact Hpost].
   - destruct (0 <? rf_pos st) eqn:Ep.
     + (* no newline inside the window, the file is not empty: fresh file, nothing skipped *)
       set (st1 := rotate (clk i) [] RFresh st).
@@ -253,10 +267,9 @@ Proof.
       { unfold winv, st1. cbn. auto. }
       { unfold measure, st1. cbn [rotate rf_pos]. cbn. lia. }
       exists st'. eexists. split; [exact Hr|].
-      eapply (post_cons clk i st st st' [] [] RFresh p hs p); try reflexivity; auto.
-      * rewrite app_nil_r. reflexivity.
-      * rewrite app_nil_r. auto.
-      * intros Ha. right. cbn [h_skipped h_content]. rewrite app_nil_r. auto.
+      pose proof (post_cons clk i st st st' [] [] RFresh p hs p) as PC. rewrite app_nil_r in PC.
+      apply PC; [reflexivity|reflexivity|reflexivity|reflexivity|reflexivity|reflexivity|reflexivity
+                |auto|intros Ha; right; split; [reflexivity|exact Ha]|auto|auto|exact Hpost].
     + (* empty file *)
       assert (Hcur : rf_cur st = []) by (apply zlen0_nil; pose proof (zlen_nonneg (rf_cur st)); lia).
       destruct (split_first_nl p) as [[a b]|] eqn:Ef.
@@ -269,10 +282,596 @@ Proof.
         { unfold measure, st1. cbn [rotate rf_pos]. cbn. lia. }
         exists st'. eexists. split.
         -- rewrite Hr. f_equal. unfold zlen. lia.
-        -- eapply (post_cons clk i st (put st a) st' a [NL] RLong b hs p); try reflexivity; auto.
-           ++ rewrite Hp. reflexivity.
-           ++ intros _. right. rewrite Hcur. exact Hn.
-           ++ intros _. left. reflexivity.
+        -- apply (post_cons clk i st (put st a) st' a [NL] RLong b hs p);
+             [reflexivity|reflexivity|reflexivity|reflexivity|reflexivity|reflexivity|exact Hp
+             |intros _; right; rewrite Hcur; exact Hn|intros _; left; reflexivity|auto|auto|exact Hpost].
       * apply split_first_nl_none in Ef.
         eexists. exists []. split; [reflexivity|]. apply final_post; [exact Hinv|right; auto].
+Qed.
+
+Definition after_stat (st : rf) : rf := if rf_exists st then st else reopen st.
+
+Lemma after_stat_winv st : rinv st -> winv (after_stat st) /\ rf_cur (after_stat st) = rf_cur st.
+Proof.
+  intros (H1 & H2). unfold after_stat, winv. destruct (rf_exists st) eqn:E.
+  - split; [|reflexivity]. rewrite E. auto.
+  - cbn. rewrite (H2 eq_refl). auto.
+Qed.
+
+Lemma winv_rinv st : winv st -> rinv st.
+Proof. intros (H1 & H2). unfold rinv. rewrite H1. split; auto; discriminate. Qed.
+
+Lemma after_stat_fields st :
+  rf_max (after_stat st) = rf_max st /\ rf_moved (after_stat st) = rf_moved st /\
+  rf_gone (after_stat st) = rf_gone st /\ rf_hist (after_stat st) = rf_hist st /\
+  rf_rot (after_stat st) = rf_rot st.
+Proof. unfold after_stat. destruct (rf_exists st); cbn; auto. Qed.
+
+Lemma rf_write_ok clk st p :
+  rinv st ->
+  exists st' hs, rf_write clk st p = WOk st' (zlen p) /\ write_post clk 0 (after_stat st) st' p hs.
+Proof.
+  intros Hinv. destruct (after_stat_winv st Hinv) as [Hw _].
+  destruct (write_loop_ok clk (S (S (2 * length p))) 0%nat (after_stat st) p 0 Hw) as (st' & hs & Hr & Hp).
+  { unfold measure. destruct (0 <? _); lia. }
+  exists st', hs. split; [|exact Hp]. unfold rf_write. fold (after_stat st). rewrite Hr. reflexivity.
+Qed.
+
+(* ---- whole histories ---- *)
+Definition hist_moved (h : list hent) : list bytes := map h_content (filter is_moved h).
+Definition hist_gone (h : list hent) : list bytes := map h_content (filter is_gone h).
+Definition hist_rot (h : list hent) : list (rname * bytes) := hist_files (filter is_rot h).
+
+Record ginv (st : rf) : Prop := {
+  g_rinv : rinv st;
+  g_rot : rf_rot st = hist_rot (rf_hist st);
+  g_moved : rf_moved st = hist_moved (rf_hist st);
+  g_gone : rf_gone st = hist_gone (rf_hist st);
+  g_nodup : NoDup (map fst (rf_rot st))
+}.
+
+Lemma loop_kind_filters hs : Forall loop_kind hs ->
+  filter is_rot hs = hs /\ filter is_moved hs = [] /\ filter is_gone hs = [].
+Proof.
+  induction 1 as [|e hs He _ (I1 & I2 & I3)]; [auto|]. cbn [filter].
+  unfold is_rot, is_moved, is_gone in *.
+  destruct He as [E|[E|E]]; rewrite E; rewrite I1, I2, I3; auto.
+Qed.
+
+Lemma ginv_write clk st p :
+  ginv st ->
+  exists st' hs, rf_write clk st p = WOk st' (zlen p) /\ ginv st' /\
+                 write_post clk 0 (after_stat st) st' p hs.
+Proof.
+  intros G. destruct (rf_write_ok clk st p (g_rinv _ G)) as (st' & hs & Hr & Hp).
+  exists st', hs. split; [exact Hr|]. split; [|exact Hp].
+  destruct (after_stat_fields st) as (F1 & F2 & F3 & F4 & F5). destruct Hp.
+  destruct (loop_kind_filters hs wp_kind0) as (K1 & K2 & K3).
+  constructor.
+  - apply winv_rinv. exact wp_inv0.
+  - rewrite wp_rot0, wp_hist0, F5, F4. unfold hist_rot, hist_files. rewrite filter_app, map_app, K1.
+    rewrite (g_rot _ G). reflexivity.
+  - rewrite wp_moved0, wp_hist0, F2, F4. unfold hist_moved. rewrite filter_app, map_app, K2, app_nil_r. apply G.
+  - rewrite wp_gone0, wp_hist0, F3, F4. unfold hist_gone. rewrite filter_app, map_app, K3, app_nil_r. apply G.
+  - apply wp_nodup0. rewrite F5. apply G.
+Qed.
+
+Lemma reopen_ginv s st :
+  rf_rot st = hist_rot (rf_hist st) -> rf_moved st = hist_moved (rf_hist st) ->
+  rf_gone st = hist_gone (rf_hist st) -> NoDup (map fst (rf_rot st)) ->
+  ginv (rf_reopen s st).
+Proof.
+  intros Gr Gm Gg Gn. unfold rf_reopen. cbn [rf_pos rf_max].
+  destruct (zlen (rf_cur st) <? rf_max st) eqn:E.
+  - constructor; cbn; auto. unfold rinv; cbn. split; auto; discriminate.
+  - constructor.
+    + unfold rinv; cbn. split; auto; discriminate.
+    + cbn [rotate rf_rot rf_hist rf_cur]. unfold hist_rot, hist_files. rewrite filter_app, map_app. cbn. rewrite Gr. reflexivity.
+    + cbn [rotate rf_moved rf_hist rf_cur]. unfold hist_moved. rewrite filter_app, map_app. cbn. rewrite app_nil_r. exact Gm.
+    + cbn [rotate rf_gone rf_hist rf_cur]. unfold hist_gone. rewrite filter_app, map_app. cbn. rewrite app_nil_r. exact Gg.
+    + apply rotate_nodup. exact Gn.
+Qed.
+
+Lemma ginv_reopen s st : ginv st -> ginv (rf_reopen s st).
+Proof. intros G. apply reopen_ginv; apply G. Qed.
+
+Lemma ginv_remove st : ginv st -> ginv (ext_remove st).
+Proof.
+  intros G. unfold ext_remove. destruct (rf_exists st) eqn:E; [|exact G].
+  constructor; cbn [rf_rot rf_moved rf_gone rf_hist]; try apply G.
+  - unfold rinv; cbn. split; auto; discriminate.
+  - unfold hist_rot. rewrite filter_app. cbn. rewrite app_nil_r. apply G.
+  - unfold hist_moved. rewrite filter_app. cbn. rewrite app_nil_r. apply G.
+  - unfold hist_gone. rewrite filter_app, map_app. cbn. f_equal. apply G.
+Qed.
+
+Lemma ginv_move st : ginv st -> ginv (ext_move st).
+Proof.
+  intros G. unfold ext_move. destruct (rf_exists st) eqn:E; [|exact G].
+  constructor; cbn [rf_rot rf_moved rf_gone rf_hist]; try apply G.
+  - unfold rinv; cbn. split; auto; discriminate.
+  - unfold hist_rot. rewrite filter_app. cbn. rewrite app_nil_r. apply G.
+  - unfold hist_moved. rewrite filter_app, map_app. cbn. f_equal. apply G.
+  - unfold hist_gone. rewrite filter_app. cbn. rewrite app_nil_r. apply G.
+Qed.
+
+Lemma ginv_open max s init : ginv (rf_open max s init).
+Proof. unfold rf_open. apply reopen_ginv; cbn; auto. constructor. Qed.
+
+Fixpoint written_lens (ops : list op) : list Z :=
+  match ops with
+  | [] => []
+  | OWrite _ p :: r => zlen p :: written_lens r
+  | _ :: r => written_lens r
+  end.
+
+(* Write never panics, never runs out of fuel, reports len(p); the invariant is kept *)
+Lemma run_total : forall ops st rets,
+  ginv st -> exists st', run st rets ops = Some (st', rets ++ written_lens ops) /\ ginv st'.
+Proof.
+  induction ops as [|o r IH]; intros st rets G; cbn [run written_lens].
+  - exists st. rewrite app_nil_r. auto.
+  - destruct o as [clk p| | |s].
+    + destruct (ginv_write clk st p G) as (st' & hs & Hr & G' & _). rewrite Hr.
+      destruct (IH st' (rets ++ [zlen p]) G') as (st'' & Hrun & G'').
+      exists st''. rewrite Hrun, <- app_assoc. auto.
+    + apply IH, ginv_remove, G.
+    + apply IH, ginv_move, G.
+    + apply IH, ginv_reopen, G.
+Qed.
+
+(* a generic way to carry a state predicate through a history *)
+Fixpoint writes_all (W : bytes -> Prop) (ops : list op) : Prop :=
+  match ops with
+  | [] => True
+  | OWrite _ p :: r => W p /\ writes_all W r
+  | _ :: r => writes_all W r
+  end.
+
+Lemma run_preserves (P : rf -> Prop) (W : bytes -> Prop) :
+  (forall clk p st st' hs, W p -> ginv st -> P st ->
+      write_post clk 0 (after_stat st) st' p hs -> P st') ->
+  (forall st, ginv st -> P st -> P (ext_remove st)) ->
+  (forall st, ginv st -> P st -> P (ext_move st)) ->
+  (forall s st, ginv st -> P st -> P (rf_reopen s st)) ->
+  forall ops st rets st' rets',
+    writes_all W ops -> ginv st -> P st -> run st rets ops = Some (st', rets') -> P st'.
+Proof.
+  intros Hw Hr Hm Ho. induction ops as [|o r IH]; intros st rets st' rets' HQ G HP H; cbn [run writes_all] in *.
+  - inversion H; subst. exact HP.
+  - destruct o as [clk p| | |s].
+    + destruct HQ as [Wp HQ].
+      destruct (ginv_write clk st p G) as (st1 & hs & Hrw & G1 & Hpost). rewrite Hrw in H.
+      exact (IH st1 _ _ _ HQ G1 (Hw clk p st st1 hs Wp G HP Hpost) H).
+    + exact (IH _ _ _ _ HQ (ginv_remove st G) (Hr st G HP) H).
+    + exact (IH _ _ _ _ HQ (ginv_move st G) (Hm st G HP) H).
+    + exact (IH _ _ _ _ HQ (ginv_reopen s st G) (Ho s st G HP) H).
+Qed.
+(* ---- lines ---- *)
+Lemma lines_of_nil_inv b : lines_of b = [] -> b = [].
+Proof.
+  destruct b as [|x r]; [reflexivity|]. cbn [lines_of].
+  destruct (x =? NL)%N; [discriminate|]. destruct (lines_of r); discriminate.
+Qed.
+
+(* a newline ends a line whatever follows *)
+Lemma lines_of_cut c : forall r, lines_of (c ++ NL :: r) = lines_of (c ++ [NL]) ++ lines_of r.
+Proof.
+  induction c as [|x c IH]; intros r; [reflexivity|]. cbn [app lines_of].
+  destruct (x =? NL)%N; [rewrite IH; reflexivity|]. rewrite IH.
+  destruct (lines_of (c ++ [NL])) as [|l ls] eqn:E; [|reflexivity].
+  apply lines_of_nil_inv in E. destruct c; discriminate.
+Qed.
+
+(* a file whose last line lacks the terminator has the same lines *)
+Lemma lines_of_unterminated c : c <> [] -> last c 0%N <> NL -> lines_of (c ++ [NL]) = lines_of c.
+Proof.
+  induction c as [|x c IH]; intros Hne Hl; [congruence|]. destruct c as [|y c].
+  - cbn in Hl. cbn [app lines_of]. destruct (x =? NL)%N eqn:E; [apply N.eqb_eq in E; congruence|]. reflexivity.
+  - assert (IH' : lines_of ((y :: c) ++ [NL]) = lines_of (y :: c)) by (apply IH; [discriminate|exact Hl]).
+    change ((x :: y :: c) ++ [NL]) with (x :: ((y :: c) ++ [NL])).
+    cbn [lines_of]. cbn [lines_of] in IH'. rewrite IH'. reflexivity.
+Qed.
+
+(* every newline is preceded by a byte that is not a newline: no empty lines *)
+Definition no_blank (t : bytes) : Prop :=
+  forall a b, t = a ++ NL :: b -> a <> [] /\ last a 0%N <> NL.
+
+Lemma last_app_cons (a : bytes) x b d : last (a ++ x :: b) d = last (x :: b) d.
+Proof.
+  induction a as [|y a IH]; [reflexivity|]. cbn [app]. 
+  change (last (y :: a ++ x :: b) d) with (match a ++ x :: b with [] => y | _ => last (a ++ x :: b) d end).
+  destruct (a ++ x :: b) eqn:E; [destruct a; discriminate|]. exact IH.
+Qed.
+
+Lemma no_blank_tail c t : no_blank (c ++ NL :: t) -> no_blank t.
+Proof.
+  intros H a b E. specialize (H (c ++ NL :: a) b). rewrite E, <- app_assoc in H. specialize (H eq_refl).
+  destruct H as [_ H]. destruct a as [|y a].
+  - exfalso. apply H. rewrite last_app_cons. reflexivity.
+  - split; [discriminate|]. rewrite last_app_cons in H.
+    change (last (NL :: y :: a) 0%N) with (last (y :: a) 0%N) in H. exact H.
+Qed.
+
+Lemma lines_of_history hs : forall cur t,
+  hist_stream hs ++ cur = t -> no_blank t -> Forall ent_fine hs ->
+  flat_map (fun e => lines_of (h_content e)) hs ++ lines_of cur = lines_of t.
+Proof.
+  induction hs as [|e hs IH]; intros cur t E Hb Hf; [cbn in *; subst; reflexivity|].
+  inversion Hf as [|? ? He Hf']; subst. unfold hist_stream in *. cbn [map concat flat_map] in *.
+  rewrite <- !app_assoc in *. destruct He as [Hs|[Hs [Hc|[c0 Hc]]]]; rewrite Hs in *; cbn [app] in *.
+  - destruct (Hb _ _ eq_refl) as [Hne Hl].
+    rewrite lines_of_cut, lines_of_unterminated by assumption. f_equal.
+    apply IH; [reflexivity| |exact Hf']. eapply no_blank_tail, Hb.
+  - rewrite Hc in *. cbn [app lines_of] in *. apply IH; auto.
+  - rewrite Hc in *. rewrite <- !app_assoc in *. cbn [app] in *.
+    match goal with |- _ = lines_of (c0 ++ NL :: ?r) => rewrite (lines_of_cut c0 r) end.
+    f_equal. apply IH; [reflexivity| |exact Hf']. eapply no_blank_tail, Hb.
+Qed.
+
+(* executable forms of the hypotheses *)
+Fixpoint nb (prev_nl : bool) (t : bytes) : bool :=
+  match t with
+  | [] => true
+  | x :: r => if (x =? NL)%N then negb prev_nl && nb true r else nb false r
+  end.
+Definition no_blank_b (t : bytes) : bool := nb true t.
+
+Definition aligned_b (b : bytes) : bool :=
+  match b with [] => true | _ => (last b 0 =? NL)%N end.
+
+Lemma nb_sound t : forall q a b, nb q t = true -> t = a ++ NL :: b ->
+  (a = [] -> q = false) /\ (a <> [] -> last a 0%N <> NL).
+Proof.
+  induction t as [|x r IH]; intros q a b H E; [destruct a; discriminate|].
+  cbn [nb] in H. destruct a as [|y a]; cbn [app] in E; inversion E; subst.
+  - rewrite N.eqb_refl in H. apply andb_true_iff in H as [H _]. split; [intros _; destruct q; [discriminate|reflexivity]|congruence].
+  - split; [discriminate|]. intros _.
+    destruct (y =? NL)%N eqn:Ey.
+    + apply andb_true_iff in H as [_ H]. destruct (IH true a b H eq_refl) as [H1 H2].
+      destruct a as [|z a]; [specialize (H1 eq_refl); discriminate|].
+      change (last (y :: z :: a) 0%N) with (last (z :: a) 0%N). apply H2. discriminate.
+    + destruct (IH false a b H eq_refl) as [H1 H2].
+      destruct a as [|z a]; [cbn; apply N.eqb_neq, Ey|].
+      change (last (y :: z :: a) 0%N) with (last (z :: a) 0%N). apply H2. discriminate.
+Qed.
+
+Lemma no_blank_b_sound t : no_blank_b t = true -> no_blank t.
+Proof.
+  intros H a b E. destruct (nb_sound t true a b H E) as [H1 H2].
+  assert (a <> []) by (intros ->; specialize (H1 eq_refl); discriminate). auto.
+Qed.
+
+Lemma aligned_b_sound b : aligned_b b = true -> aligned b.
+Proof.
+  unfold aligned_b, aligned. destruct b as [|x r]; [auto|]. intros H. right.
+  destruct (@exists_last _ (x :: r)) as (b0 & z & E); [discriminate|]. rewrite E in *.
+  rewrite last_last in H. apply N.eqb_eq in H. subst. eauto.
+Qed.
+
+Lemma aligned_suffix a b : aligned (a ++ b) -> aligned b.
+Proof.
+  intros [H|[c H]]; [apply app_eq_nil in H as [_ ->]; left; reflexivity|].
+  destruct b as [|x r]; [left; reflexivity|]. right.
+  destruct (@exists_last _ (x :: r)) as (b0 & z & E); [discriminate|]. rewrite E in *.
+  rewrite app_assoc in H. apply app_inj_tail in H as [_ ->]. eauto.
+Qed.
+
+Lemma aligned_app a b : aligned a -> aligned b -> aligned (a ++ b).
+Proof.
+  intros Ha [->|[b0 ->]]; [rewrite app_nil_r; exact Ha|]. right. exists (a ++ b0). rewrite app_assoc. reflexivity.
+Qed.
+
+
+(* ---- byte accounting: every byte handed to Write is in a file, except the newlines skipped ---- *)
+Lemma run_stream : forall ops st rets st' rets',
+  ginv st -> run st rets ops = Some (st', rets') ->
+  hist_stream (rf_hist st') ++ rf_cur st' = hist_stream (rf_hist st) ++ rf_cur st ++ written_of ops.
+Proof.
+  induction ops as [|o r IH]; intros st rets st' rets' G H; cbn [run written_of] in *.
+  - inversion H; subst. rewrite app_nil_r. reflexivity.
+  - destruct o as [clk p| | |s].
+    + destruct (ginv_write clk st p G) as (st1 & hs & Hr & G1 & Hp). rewrite Hr in H.
+      destruct (after_stat_winv st (g_rinv _ G)) as [_ Ec].
+      destruct (after_stat_fields st) as (_ & _ & _ & Eh & _). destruct Hp.
+      rewrite (IH st1 _ _ _ G1 H), wp_hist0, Eh, hist_stream_app, <- !app_assoc. f_equal.
+      rewrite (app_assoc (hist_stream hs)), wp_stream0, Ec, <- app_assoc. reflexivity.
+    + rewrite (IH _ _ _ _ (ginv_remove st G) H). unfold ext_remove. destruct (rf_exists st); [|reflexivity].
+      cbn [rf_hist rf_cur]. rewrite hist_stream_app. unfold hist_stream at 2. cbn. rewrite !app_nil_r, <- app_assoc. reflexivity.
+    + rewrite (IH _ _ _ _ (ginv_move st G) H). unfold ext_move. destruct (rf_exists st); [|reflexivity].
+      cbn [rf_hist rf_cur]. rewrite hist_stream_app. unfold hist_stream at 2. cbn. rewrite !app_nil_r, <- app_assoc. reflexivity.
+    + rewrite (IH _ _ _ _ (ginv_reopen s st G) H). unfold rf_reopen. cbn [rf_pos rf_max].
+      destruct (_ <? _); cbn [rf_hist rf_cur rotate]; [reflexivity|].
+      rewrite hist_stream_app. unfold hist_stream at 2. cbn. rewrite !app_nil_r, <- app_assoc. reflexivity.
+Qed.
+
+Lemma open_stream max s init :
+  hist_stream (rf_hist (rf_open max s init)) ++ rf_cur (rf_open max s init) = init.
+Proof.
+  unfold rf_open, rf_reopen. cbn [rf_pos rf_max rf_cur]. destruct (_ <? _); cbn; [auto|].
+  unfold hist_stream; cbn. rewrite !app_nil_r. auto.
+Qed.
+
+Lemma bytes_accounted max s init ops st rets :
+  run (rf_open max s init) [] ops = Some (st, rets) ->
+  hist_stream (rf_hist st) ++ rf_cur st = init ++ written_of ops.
+Proof.
+  intros H. rewrite (run_stream ops _ _ _ _ (ginv_open max s init) H), app_assoc, open_stream. reflexivity.
+Qed.
+
+(* ---- every file left <path> at a line boundary ---- *)
+Definition fine_state (st : rf) : Prop := aligned (rf_cur st) /\ Forall ent_fine (rf_hist st).
+
+Lemma fine_reopen s st : fine_state st -> fine_state (rf_reopen s st).
+Proof.
+  intros [Ha Hf]. unfold rf_reopen, fine_state. cbn [rf_pos rf_max]. destruct (_ <? _); cbn; [auto|].
+  split; [apply aligned_nil|]. apply Forall_app. split; [exact Hf|]. constructor; [right; auto|constructor].
+Qed.
+
+Lemma run_fine : forall ops st rets st' rets',
+  writes_all aligned ops -> ginv st -> fine_state st ->
+  run st rets ops = Some (st', rets') -> fine_state st'.
+Proof.
+  apply (run_preserves fine_state aligned).
+  - intros clk p st st' hs Wp G [Ha Hf] Hp.
+    destruct (after_stat_winv st (g_rinv _ G)) as [_ Ec].
+    destruct (after_stat_fields st) as (_ & _ & _ & Eh & _). destruct Hp.
+    rewrite Ec in *. rewrite Eh in *. split.
+    + apply (aligned_suffix (hist_stream hs)). rewrite wp_stream0. apply aligned_app; assumption.
+    + rewrite wp_hist0. apply Forall_app. split; [exact Hf|apply wp_fine0, Ha].
+  - intros st G [Ha Hf]. unfold ext_remove, fine_state. destruct (rf_exists st); cbn; [|auto].
+    split; [apply aligned_nil|]. apply Forall_app. split; [exact Hf|]. constructor; [right; auto|constructor].
+  - intros st G [Ha Hf]. unfold ext_move, fine_state. destruct (rf_exists st); cbn; [|auto].
+    split; [apply aligned_nil|]. apply Forall_app. split; [exact Hf|]. constructor; [right; auto|constructor].
+  - intros s st _. apply fine_reopen.
+Qed.
+
+Fixpoint writes_aligned (ops : list op) : bool :=
+  match ops with
+  | [] => true
+  | OWrite _ p :: r => aligned_b p && writes_aligned r
+  | _ :: r => writes_aligned r
+  end.
+
+Lemma writes_aligned_all ops : writes_aligned ops = true -> writes_all aligned ops.
+Proof.
+  induction ops as [|o r IH]; cbn; [auto|]. destruct o; auto.
+  intros H. apply andb_true_iff in H as [H1 H2]. split; [apply aligned_b_sound, H1|auto].
+Qed.
+
+(* ---- the size bound ---- *)
+Definition fits_state (max : Z) (st : rf) : Prop :=
+  rf_max st = max /\ fits max (rf_cur st) /\ Forall (fun e => fits max (h_content e)) (rf_hist st).
+
+Lemma run_fits max : forall ops st rets st' rets',
+  writes_all (fun _ => True) ops -> ginv st -> fits_state max st ->
+  run st rets ops = Some (st', rets') -> fits_state max st'.
+Proof.
+  apply (run_preserves (fits_state max) (fun _ => True)).
+  - intros clk p st st' hs _ G (Hm & Hc & Hh) Hp.
+    destruct (after_stat_winv st (g_rinv _ G)) as [_ Ec].
+    destruct (after_stat_fields st) as (Em & _ & _ & Eh & _). destruct Hp.
+    rewrite Ec, Em, Hm in *. rewrite Eh in *. destruct (wp_fits0 Hc) as [F1 F2].
+    split; [congruence|]. split; [exact F2|]. rewrite wp_hist0. apply Forall_app. auto.
+  - intros st G (Hm & Hc & Hh). unfold ext_remove, fits_state. destruct (rf_exists st); cbn; [|auto].
+    split; [exact Hm|]. split; [apply fits_nil|]. apply Forall_app. split; [exact Hh|]. constructor; [exact Hc|constructor].
+  - intros st G (Hm & Hc & Hh). unfold ext_move, fits_state. destruct (rf_exists st); cbn; [|auto].
+    split; [exact Hm|]. split; [apply fits_nil|]. apply Forall_app. split; [exact Hh|]. constructor; [exact Hc|constructor].
+  - intros s st G (Hm & Hc & Hh). unfold rf_reopen, fits_state. cbn [rf_pos rf_max]. destruct (_ <? _); cbn; [auto|].
+    split; [exact Hm|]. split; [apply fits_nil|]. apply Forall_app. split; [exact Hh|]. constructor; [exact Hc|constructor].
+Qed.
+
+Lemma writes_all_true ops : writes_all (fun _ => True) ops.
+Proof. induction ops as [|o r IH]; cbn; [auto|]. destruct o; auto. Qed.
+
+Lemma in_hist_files x hs : In x (hist_files hs) -> exists e, In e hs /\ snd x = h_content e.
+Proof. unfold hist_files. intros H. apply in_map_iff in H as (e & <- & He). eauto. Qed.
+
+Lemma size_bound max s init ops st rets :
+  fits max init ->
+  run (rf_open max s init) [] ops = Some (st, rets) ->
+  fits max (rf_cur st) /\
+  (forall x, In x (rf_rot st) -> fits max (snd x)) /\
+  Forall (fits max) (rf_moved st) /\
+  Forall (fits max) (rf_gone st).
+Proof.
+  intros Hi H.
+  destruct (run_total ops _ [] (ginv_open max s init)) as (st' & Hrun & G).
+  rewrite H in Hrun. inversion Hrun; subst st'. clear Hrun.
+  assert (F0 : fits_state max (rf_open max s init)).
+  { unfold rf_open, rf_reopen, fits_state. cbn [rf_pos rf_max rf_cur]. destruct (_ <? _); cbn; [auto|].
+    split; [reflexivity|]. split; [apply fits_nil|]. constructor; [exact Hi|constructor]. }
+  destruct (run_fits max ops _ _ _ _ (writes_all_true ops) (ginv_open max s init) F0 H) as (_ & Fc & Fh).
+  rewrite Forall_forall in Fh.
+  split; [exact Fc|]. split; [|split].
+  - intros x Hx. rewrite (g_rot _ G) in Hx. apply in_hist_files in Hx as (e & He & ->).
+    apply Fh. apply filter_In in He. tauto.
+  - rewrite (g_moved _ G). apply Forall_forall. intros c Hc. apply in_map_iff in Hc as (e & <- & He).
+    apply Fh. apply filter_In in He. tauto.
+  - rewrite (g_gone _ G). apply Forall_forall. intros c Hc. apply in_map_iff in Hc as (e & <- & He).
+    apply Fh. apply filter_In in He. tauto.
+Qed.
+
+(* ---- the lines: all histories ---- *)
+Definition hist_lines (h : list hent) : list bytes := flat_map (fun e => lines_of (h_content e)) h.
+
+Lemma lines_kept_all max s init ops st rets :
+  aligned_b init = true -> writes_aligned ops = true -> no_blank_b (init ++ written_of ops) = true ->
+  run (rf_open max s init) [] ops = Some (st, rets) ->
+  hist_lines (rf_hist st) ++ lines_of (rf_cur st) = lines_of (init ++ written_of ops) /\
+  rf_rot st = hist_rot (rf_hist st) /\ rf_moved st = hist_moved (rf_hist st) /\
+  rf_gone st = hist_gone (rf_hist st) /\ NoDup (map fst (rf_rot st)).
+Proof.
+  intros Hi Hw Hb H.
+  destruct (run_total ops _ [] (ginv_open max s init)) as (st' & Hrun & G).
+  rewrite H in Hrun. inversion Hrun; subst st'. clear Hrun.
+  split; [|split; [apply G|split; [apply G|split; apply G]]].
+  assert (F0 : fine_state (rf_open max s init)).
+  { unfold rf_open. apply fine_reopen. split; [apply aligned_b_sound, Hi|constructor]. }
+  destruct (run_fine ops _ _ _ _ (writes_aligned_all ops Hw) (ginv_open max s init) F0 H) as [_ Hf].
+  apply lines_of_history; [eapply bytes_accounted; eauto|apply no_blank_b_sound, Hb|exact Hf].
+Qed.
+
+Lemma filter_rot_all h : filter is_moved h = [] -> filter is_gone h = [] -> filter is_rot h = h.
+Proof.
+  induction h as [|e h IH]; [auto|]. cbn [filter]. unfold is_moved, is_gone, is_rot in *.
+  destruct (h_kind e); try discriminate; intros H1 H2; f_equal; auto.
+Qed.
+
+Lemma flat_map_contents (hs : list hent) :
+  flat_map lines_of (map snd (hist_files hs)) = hist_lines hs.
+Proof.
+  unfold hist_files, hist_lines. induction hs as [|e hs IH]; [reflexivity|].
+  cbn [map flat_map snd]. f_equal. exact IH.
+Qed.
+
+(* nobody removed or renamed the log file: the rotated files in order of rotation followed by
+   the active file hold exactly the lines written *)
+Lemma lines_kept max s init ops st rets :
+  aligned_b init = true -> writes_aligned ops = true -> no_blank_b (init ++ written_of ops) = true ->
+  run (rf_open max s init) [] ops = Some (st, rets) ->
+  rf_moved st = [] -> rf_gone st = [] ->
+  flat_map lines_of (map snd (rf_rot st)) ++ lines_of (rf_cur st) = lines_of (init ++ written_of ops).
+Proof.
+  intros Hi Hw Hb H Hm Hg.
+  destruct (lines_kept_all max s init ops st rets Hi Hw Hb H) as (L & Er & Em & Eg & _).
+  rewrite Er. unfold hist_rot. rewrite filter_rot_all, flat_map_contents; [exact L| |].
+  - rewrite Em in Hm. unfold hist_moved in Hm. apply map_eq_nil in Hm. exact Hm.
+  - rewrite Eg in Hg. unfold hist_gone in Hg. apply map_eq_nil in Hg. exact Hg.
+Qed.
+
+(* ---- the channel: Send returns whenever the destination could be opened ---- *)
+Lemma wl_never_blocks : forall es w,
+  wl_alive w = true -> wl_blocked w = false -> ginv (wl_rf w) ->
+  exists w', wl_run w es = Some w' /\ wl_alive w' = true /\ wl_blocked w' = false.
+Proof.
+  induction es as [|e es IH]; intros w Ha Hb G; cbn [wl_run]; [eauto|].
+  assert (Hfl : forall s w0, wl_alive w0 = true -> wl_blocked w0 = false -> ginv (wl_rf w0) ->
+           exists w1, wl_flush s w0 = Some w1 /\ wl_alive w1 = true /\ wl_blocked w1 = false /\ ginv (wl_rf w1)).
+  { intros s w0 Ha0 Hb0 G0. unfold wl_flush. destruct (wl_buf w0) as [|l ls] eqn:Eb; [eauto|].
+    destruct (ginv_write (fun i => s (length (rf_hist (wl_rf w0)) + i)%nat) (wl_rf w0) (concat (l :: ls)) G0) as (st' & hs & Hr & G' & _).
+    rewrite Hr. eexists. split; [reflexivity|]. cbn. auto. }
+  unfold wl_step. rewrite Ha, Hb. cbn [negb].
+  destruct e as [s line|s].
+  - cbn zeta. destruct (_ <? FLUSH_BYTES).
+    + apply IH; cbn; auto.
+    + destruct (Hfl s (mkWL true (wl_rf w) (wl_buf w ++ [line]) (wl_len w + zlen line) false)) as (w1 & -> & A1 & B1 & G1); cbn; auto.
+  - destruct (Hfl s w Ha Hb G) as (w1 & -> & A1 & B1 & G1). auto.
+Qed.
+
+Lemma wl_openable_never_blocks max s init es :
+  exists w, wl_run (wl_new max true s init) es = Some w /\ wl_blocked w = false.
+Proof.
+  destruct (wl_never_blocks es (wl_new max true s init)) as (w & H & _ & B); cbn; auto.
+  - apply ginv_open.
+  - eauto.
+Qed.
+
+(* ... and blocks for ever when it could not *)
+Lemma wl_unopenable_blocks max s init es line s' :
+  exists w, wl_run (wl_new max false s init) (ESend s' line :: es) = Some w /\ wl_blocked w = true.
+Proof.
+  cbn [wl_new wl_run wl_step wl_alive negb].
+  generalize (mkRF max 0 false [] [] [] [] []). intros st0. generalize (@nil bytes), 0.
+  induction es as [|e es IH]; intros buf len; cbn [wl_run]; [eauto|].
+  cbn [wl_step wl_alive negb]. destruct e; apply IH.
+Qed.
+
+(* ---- statements used by Properties.v ---- *)
+Lemma write_total clk st p :
+  rinv st -> exists st', rf_write clk st p = WOk st' (zlen p) /\ rinv st' /\ rf_max st' = rf_max st.
+Proof.
+  intros H. destruct (rf_write_ok clk st p H) as (st' & hs & Hr & Hp). exists st'. split; [exact Hr|].
+  destruct Hp. split; [apply winv_rinv; assumption|]. rewrite wp_max0. apply after_stat_fields.
+Qed.
+
+Lemma history_total max s init ops :
+  exists st, run (rf_open max s init) [] ops = Some (st, written_lens ops) /\ rinv st.
+Proof.
+  destruct (run_total ops _ [] (ginv_open max s init)) as (st & H & G).
+  exists st. split; [exact H|apply G].
+Qed.
+
+(* one Write, whatever happened to the file before: the bytes of p are in the active file or in
+   the files this call rotated away, in order; the only bytes not in a file are newlines that end
+   the last line of a rotated file; no name is used twice *)
+Lemma write_accounts clk st p :
+  rinv st ->
+  exists st' hs, rf_write clk st p = WOk st' (zlen p) /\
+    rf_hist st' = rf_hist st ++ hs /\
+    rf_rot st' = rf_rot st ++ hist_files hs /\
+    hist_stream hs ++ rf_cur st' = rf_cur st ++ p /\
+    Forall (fun e => h_skipped e = [NL] \/ (h_skipped e = [] /\ h_kind e = RFresh)) hs /\
+    map h_sec hs = map clk (seq 0 (length hs)) /\
+    (NoDup (map fst (rf_rot st)) -> NoDup (map fst (rf_rot st'))).
+Proof.
+  intros H. destruct (rf_write_ok clk st p H) as (st' & hs & Hr & Hp). exists st', hs. split; [exact Hr|].
+  destruct (after_stat_winv st H) as [_ Ec]. destruct (after_stat_fields st) as (Em & _ & _ & Eh & Er).
+  destruct Hp. rewrite Eh in wp_hist0. rewrite Ec in wp_stream0. rewrite Er in wp_rot0, wp_nodup0.
+  repeat split; auto.
+Qed.
+
+(* ---- the full statement of the property on the model ---- *)
+Definition files_lines (st : rf) : list bytes :=
+  flat_map lines_of (map snd (rf_rot st)) ++ lines_of (rf_cur st).
+
+Definition full_lines : Prop := forall max s init ops st rets,
+  aligned_b init = true -> writes_aligned ops = true -> no_blank_b (init ++ written_of ops) = true ->
+  run (rf_open max s init) [] ops = Some (st, rets) ->
+  rf_moved st = [] -> rf_gone st = [] ->
+  files_lines st = lines_of (init ++ written_of ops).
+
+Definition full_send : Prop := forall max openable s init es w,
+  1024 <= max -> wl_run (wl_new max openable s init) es = Some w -> wl_blocked w = false.
+
+Lemma full_lines_holds : full_lines.
+Proof. unfold full_lines, files_lines. intros. eapply lines_kept; eauto. Qed.
+
+Lemma full_send_refuted : ~ full_send.
+Proof.
+  intros F. destruct (wl_unopenable_blocks 1024 0%N [] [] [123; 125; NL]%N (fun _ => 0%N)) as (w & Hr & Hb).
+  rewrite (F 1024 false 0%N [] _ w ltac:(lia) Hr) in Hb. discriminate.
+Qed.
+
+Lemma full_refuted : ~ (full_lines /\ full_send).
+Proof. intros [_ H]. exact (full_send_refuted H). Qed.
+
+(* building blocks of the examples *)
+Definition mkline (c n : N) : bytes := 123%N :: repeat c (N.to_nat n) ++ [125%N; NL].  (* n + 3 bytes *)
+Definition clk0 : nat -> N := fun _ => 0%N.
+
+(* executable checks used by the examples *)
+Definition names_are (st : rf) (l : list (N * N)) : bool :=
+  list_eqb (fun a b => (fst a =? fst b)%N && (snd a =? snd b)%N) (map fst (rf_rot st)) l.
+Definition lines_match (st : rf) (ops : list op) : bool :=
+  list_eqb beq (files_lines st) (lines_of (written_of ops)).
+Definition hyps_ok (ops : list op) : bool :=
+  aligned_b [] && writes_aligned ops && no_blank_b ([] ++ written_of ops).
+
+(* ---- the scan: the index loop of the Go code and the structural split agree ---- *)
+Lemma scan_down_spec p : forall j,
+  (j < length p)%nat ->
+  match split_last_nl (firstn j (tl p)) with
+  | Some (a, _) => scan_down p j = S (length a)
+  | None => scan_down p j = O
+  end.
+Proof.
+  destruct p as [|x0 p]; [cbn; lia|]. cbn [tl length].
+  induction j as [|j IH]; intros Hj; [reflexivity|].
+  cbn [scan_down]. change (nth (S j) (x0 :: p) 0%N) with (nth j p 0%N).
+  assert (Hlt : (j < length p)%nat) by lia.
+  assert (E : firstn (S j) p = firstn j p ++ [nth j p 0%N]).
+  { clear -Hlt. revert j Hlt. induction p as [|y p IHp]; intros j Hlt; [cbn in Hlt; lia|].
+    destruct j; [reflexivity|]. cbn [firstn nth app]. f_equal. apply IHp. cbn in Hlt. lia. }
+  rewrite E. specialize (IH ltac:(lia)).
+  assert (Happ : forall l y, split_last_nl (l ++ [y]) =
+            if (y =? NL)%N then Some (l, [])
+            else match split_last_nl l with Some (a, b) => Some (a, b ++ [y]) | None => None end).
+  { clear. induction l as [|z l IHl]; intros y; cbn [app split_last_nl].
+    - destruct (y =? NL)%N; reflexivity.
+    - rewrite IHl. destruct (y =? NL)%N; [reflexivity|]. destruct (split_last_nl l) as [[a b]|]; [reflexivity|].
+      destruct (z =? NL)%N; reflexivity. }
+  rewrite Happ. destruct (nth j p 0%N =? NL)%N eqn:En.
+  - rewrite firstn_length. f_equal. lia.
+  - destruct (split_last_nl (firstn j p)) as [[a b]|]; exact IH.
 Qed.
